@@ -7,8 +7,8 @@ CONSTANTS
   BinSizes = {2, 3}
   Bpjs = {1, 2, 4}
   Mfss = {0, 2}
-  KindSet = {"good", "dup", "notr1", "unpaired", "lowmq", "mp_multi", "good_s2"}
-  KwargsSet = {"none", "empty"}
+  KindSet = {"good", "dup", "notr1", "unpaired", "qcfail", "lowmq", "mp_multi", "good_s2"}
+  KwargsSet = {"none", "empty", "ignore_mp"}
   UseKeySet = {TRUE, FALSE}
   NFiles = 1
   MaxRecs = 1
